@@ -199,6 +199,15 @@ bool op_valid(const Op& op) {
     if (op.kind == "irfft") {
         return op.a.size() >= 2 && sz(0) && op.iarg(0) % 2 == 0;
     }
+    if (op.kind == "welch" || op.kind == "stft") {
+        return op.a.size() >= 3 && sz(0) && op.iarg(0) >= 8 && op.iarg(1) >= 2 && op.iarg(1) <= 11;
+    }
+    if (op.kind == "gccphat" || op.kind == "thd") {
+        return op.a.size() >= 2 && sz(0) && op.iarg(0) >= 16;
+    }
+    if (op.kind == "resample") {
+        return op.a.size() >= 4 && sz(0) && op.iarg(1) >= 1 && op.iarg(1) <= 12 && op.iarg(2) >= 1 && op.iarg(2) <= 12;
+    }
     if (op.kind == "fftn" || op.kind == "xcorr" || op.kind == "fftfilt") {
         return op.a.size() >= 3 && sz(0) && sz(1);
     }
@@ -265,6 +274,36 @@ std::vector<double> do_request(const Op& op) {
     } else if (op.kind == "fftfilt") {
         dsplib::FftFilter f(rand_coeffs(uint32_t(op.iarg(2)), n));
         append(out, f.process(rdata(uint32_t(op.iarg(2)), int(op.iarg(1)))));
+    } else if (op.kind == "welch") {
+        // "everything built on them": the estimators and converters that run transforms internally
+        const int nfft = 1 << int(op.iarg(1));
+        const auto r = dsplib::welch(rdata(uint32_t(op.iarg(2)), std::max(n, nfft)), nfft);
+        append(out, r.pxx);
+    } else if (op.kind == "stft") {
+        const int nfft = 1 << int(op.iarg(1));
+        const auto fr = dsplib::stft(rdata(uint32_t(op.iarg(2)), std::max(n, nfft)), nfft);
+        for (const auto& f : fr) {
+            append(out, f);
+        }
+        if (!fr.empty()) {
+            append(out, dsplib::istft(fr, nfft));
+        }
+    } else if (op.kind == "gccphat") {
+        const arr_real x = rdata(uint32_t(op.iarg(1)), n);
+        const auto r = dsplib::gccphat(dsplib::delayseq(x, 3), x, 8000);
+        out.push_back(r.tau);
+        append(out, r.corr);
+        out.push_back(dsplib::finddelay(x, dsplib::delayseq(x, 2)));
+    } else if (op.kind == "thd") {
+        arr_real x = rdata(uint32_t(op.iarg(1)), n) * 0.01;
+        for (int i = 0; i < n; ++i) {
+            x[i] += std::sin(0.7 * i) + 0.1 * std::sin(1.4 * i);
+        }
+        const auto r = dsplib::thd(x, 3);
+        out.push_back(r.value);
+        append(out, r.harmfreq);
+    } else if (op.kind == "resample") {
+        append(out, dsplib::resample(rdata(uint32_t(op.iarg(3)), n), int(op.iarg(1)), int(op.iarg(2))));
     }
     return out;
 }
@@ -335,9 +374,24 @@ Plan gen(uint64_t seed, const std::string& tier) {
                 n = (n == 1) ? 2 : n - 1;
             }
             op.a = {double(n), ds};
-        } else if (c == 12) {
+        } else if (c == 12 && r.chance(0.5)) {
             op.kind = "fftn";
             op.a = {double(r.pick(alpha)), double(n), ds};
+        } else if (c == 12 || (c == 13 && r.chance(0.3))) {
+            const int w = int(r.below(5));
+            if (w <= 1) {
+                op.kind = (w == 0) ? "welch" : "stft";
+                op.a = {double(std::max(n, 8)), double(r.range(2, 8)), ds};
+            } else if (w <= 3) {
+                op.kind = (w == 2) ? "gccphat" : "thd";
+                op.a = {double(std::max(std::min(n, 3000), 16)), ds};
+            } else {
+                op.kind = "resample";
+                op.a = {double(std::min(n, 1500)), double(r.range(1, 7)), double(r.range(1, 7)), ds};
+            }
+        } else if (c == 13 && r.chance(0.35)) {
+            op.kind = "sweep";
+            op.a = {double(r.below(4)), ds};
         } else if (c == 13) {
             op.kind = r.chance(0.5) ? "xcorr" : "hilbert";
             if (op.kind == "xcorr") {
@@ -345,9 +399,6 @@ Plan gen(uint64_t seed, const std::string& tier) {
             } else {
                 op.a = {double(std::max(n, 2)), ds};
             }
-        } else if (c == 13 && r.chance(0.35)) {
-            op.kind = "sweep";
-            op.a = {double(r.below(4)), ds};
         } else if (c == 14 && r.chance(0.5)) {
             // the m = n, w = exp(-2 pi i / n) form is the one the prime-length FFT plans use internally
             op.kind = "czt";
